@@ -83,9 +83,18 @@ def control_patches(pid):
     import glob
     import json
     out = []
+    k = int(pid[1:]) if pid[1:].isdigit() else 0
+    camp = []
     for p in sorted(glob.glob(os.path.join(facts.VERIF, "selftest", "mutants", "*.diff"))):
         m = re.search(r"^# expect: (.*)$", open(p).read(), re.M)
         if m and pid in m.group(1).split():
+            if os.path.basename(p).startswith("mc_"):
+                camp.append(p)          # mutation-campaign survivors: many near-duplicates, a fixed sample suffices here
+            else:
+                out.append((p, "must-fire"))
+    for i in range(min(4, len(camp))):
+        p = camp[(k + i * 3) % len(camp)]
+        if (p, "must-fire") not in out:
             out.append((p, "must-fire"))
     for p in sorted(glob.glob(os.path.join(facts.VERIF, "seeded", "*", "patch.diff"))):
         try:
@@ -97,7 +106,6 @@ def control_patches(pid):
     pres = sorted(glob.glob(os.path.join(facts.VERIF, "selftest", "preserving", "*.diff")))
     # the whole behaviour-preserving list is exercised by selftest/run.py; each property's thorough run re-checks a
     # fixed, property-dependent sample of it (the large refactorings first) to stay within minutes
-    k = int(pid[1:]) if pid[1:].isdigit() else 0
     big = [p for p in pres if os.path.basename(p).startswith(("rf", "rg"))]
     small = [p for p in pres if p not in big]
     pick = [big[(k + i * 5) % len(big)] for i in range(min(3, len(big)))] if big else []
@@ -118,44 +126,52 @@ def controls(rep):
     pats = control_patches(rep.pid)
     res = []
     evid = tempfile.mkdtemp(prefix="zkv-ctl-evid-")
-    try:
-        for p, kind in pats:
-            name = os.path.relpath(p, facts.VERIF)
-            wt = tempfile.mkdtemp(prefix="zkv-ctl-")
-            os.rmdir(wt)
+    import threading
+    from concurrent.futures import ThreadPoolExecutor
+    gitlock = threading.Lock()
+
+    def one(pk):
+        p, kind = pk
+        name = os.path.relpath(p, facts.VERIF)
+        wt = tempfile.mkdtemp(prefix="zkv-ctl-")
+        os.rmdir(wt)
+        with gitlock:
             r = subprocess.run(["git", "-C", repo, "worktree", "add", "--detach", wt, "HEAD"], capture_output=True, text=True)
+        if r.returncode:
+            res.append({"patch": name, "kind": kind, "result": "skipped: no scratch worktree (%s)" % r.stderr.strip()[:80]})
+            return
+        try:
+            r = subprocess.run(["git", "-C", wt, "apply", "--whitespace=nowarn", p], capture_output=True, text=True)
             if r.returncode:
-                res.append({"patch": name, "kind": kind, "result": "skipped: no scratch worktree (%s)" % r.stderr.strip()[:80]})
-                continue
-            try:
-                r = subprocess.run(["git", "-C", wt, "apply", "--whitespace=nowarn", p], capture_output=True, text=True)
-                if r.returncode:
-                    res.append({"patch": name, "kind": kind, "result": "skipped: does not apply to the current HEAD"})
-                    continue
-                r = subprocess.run([os.path.join(facts.VERIF, "check"), rep.pid, "--tier", "quick", "--repo", wt], cwd=facts.VERIF,
-                                   capture_output=True, text=True, env=dict(os.environ, ZKV_EVID_DIR=evid, ZKV_NO_CONTROLS="1"))
-                if "fact extraction failed" in (r.stdout + r.stderr):
-                    res.append({"patch": name, "kind": kind, "result": "skipped: variant does not compile on this HEAD"})
-                    continue
-                fired = r.returncode == 1 and "VIOLATION property=%s" % rep.pid in r.stdout
-                silent = r.returncode == 0
-                if kind == "must-fire":
-                    okc = fired
-                else:
-                    okc = silent
-                what = "fired" if fired else ("silent" if silent else "exit %d" % r.returncode)
-                first = ""
-                if fired:
-                    for line in r.stdout.splitlines():
-                        if line.startswith("  rule="):
-                            first = line.strip()[:160]
-                            break
-                res.append({"patch": name, "kind": kind, "result": what, "as_expected": okc, "first_report": first})
-                if not okc:
-                    rep.broken.append("control %s (%s) -> %s" % (name, kind, what))
-            finally:
+                res.append({"patch": name, "kind": kind, "result": "skipped: does not apply to the current HEAD"})
+                return
+            r = subprocess.run([os.path.join(facts.VERIF, "check"), rep.pid, "--tier", "quick", "--repo", wt], cwd=facts.VERIF,
+                               capture_output=True, text=True, env=dict(os.environ, ZKV_EVID_DIR=evid, ZKV_NO_CONTROLS="1"))
+            if "fact extraction failed" in (r.stdout + r.stderr):
+                res.append({"patch": name, "kind": kind, "result": "skipped: variant does not compile on this HEAD"})
+                return
+            fired = r.returncode == 1 and "VIOLATION property=%s" % rep.pid in r.stdout
+            silent = r.returncode == 0
+            okc = fired if kind == "must-fire" else silent
+            what = "fired" if fired else ("silent" if silent else "exit %d" % r.returncode)
+            first = ""
+            if fired:
+                for line in r.stdout.splitlines():
+                    if line.startswith("  rule="):
+                        first = line.strip()[:160]
+                        break
+            res.append({"patch": name, "kind": kind, "result": what, "as_expected": okc, "first_report": first})
+            if not okc:
+                rep.broken.append("control %s (%s) -> %s" % (name, kind, what))
+        finally:
+            with gitlock:
                 subprocess.run(["git", "-C", repo, "worktree", "remove", "--force", wt], capture_output=True)
-                shutil.rmtree(wt, ignore_errors=True)
+            shutil.rmtree(wt, ignore_errors=True)
+
+    try:
+        with ThreadPoolExecutor(max_workers=int(os.environ.get("ZKV_CONTROL_JOBS", "4"))) as ex:
+            list(ex.map(one, pats))
+        res.sort(key=lambda x: x["patch"])
     finally:
         shutil.rmtree(evid, ignore_errors=True)
     rep.extra["controls"] = res
